@@ -71,12 +71,47 @@ def load_modules(prop):
     return mods
 
 
+class JobTimeout(BaseException):
+    """CPU-time watchdog of one job (BaseException: 'except Exception' in the code under check must not swallow it)"""
+
+
+def _arm_watchdog(tier):
+    # ITIMER_PROF (process CPU time): independent of signal.alarm/ITIMER_REAL, which some contract files use themselves
+    import signal
+
+    budget = float(os.environ.get('VERIF_JOB_TIMEOUT', '2400' if tier == 'quick' else '28800'))
+
+    def handler(signum, frame):
+        raise JobTimeout()
+
+    signal.signal(signal.SIGPROF, handler)
+    signal.setitimer(signal.ITIMER_PROF, budget)
+    return budget
+
+
+def _disarm_watchdog():
+    import signal
+
+    signal.setitimer(signal.ITIMER_PROF, 0)
+
+
 def _job(args):
     modname, idx, inst, kind, tier, seed = args
     from contracts.common import silence_logging
 
     silence_logging()
     mod = importlib.import_module(modname)
+    budget = _arm_watchdog(tier)
+    try:
+        return _job_inner(mod, modname, idx, inst, kind, tier, seed)
+    except JobTimeout:
+        return dict(contract=f'{modname}[{idx}]', inst=inst, status='undecided', error=f'job exceeded its CPU-time budget of {budget:.0f}s (no verdict)',
+                    obligations=[], canaries=[], paths=0, seconds=budget, label='undecided')
+    finally:
+        _disarm_watchdog()
+
+
+def _job_inner(mod, modname, idx, inst, kind, tier, seed):
     try:
         if kind == 'contract':
             from vc.contract import run_instance
@@ -106,6 +141,19 @@ def _native_job(args):
     seeds = list(seeds)
     if getattr(c, 'special_floats', False):
         seeds += [('special', 7000 + k) for k in range(40)]
+    budget = _arm_watchdog('quick')
+    try:
+        _native_seeds(c, inst, model, seeds, out)
+    except JobTimeout:
+        out.append(dict(pre_ok=False, failed=[], used={}, exc=f'native run exceeded its CPU-time budget of {budget:.0f}s', harness_error=True, seed=None))
+    finally:
+        _disarm_watchdog()
+    return out
+
+
+def _native_seeds(c, inst, model, seeds, out):
+    from vc.native import run_native
+
     for s in seeds:
         try:
             if isinstance(s, tuple):
@@ -118,7 +166,6 @@ def _native_job(args):
             r = dict(pre_ok=False, failed=[], used={}, exc='native harness error: ' + traceback.format_exc(limit=6), harness_error=True)
         r['seed'] = s
         out.append(r)
-    return out
 
 
 def load_known():
